@@ -17,5 +17,15 @@ FAM = {
  'not':     lambda b: '!(%s)' % b,
  'select':  lambda b: '(%s).a' % b,
  'inherit': lambda b: '{ inherit (%s) a; }' % b,
+ # third round of seeds: calls written without whitespace, other argument shapes, operator chains with the line break on
+ # either side of the operator, the remaining operand positions, multi-line heads
+ 'call_tight': lambda b: 'f(%s)' % b, 'call_set_tight': lambda b: 'f{a=%s;}' % b, 'call_list_tight': lambda b: 'f[%s]' % b,
+ 'call_set': lambda b: 'f { a = %s; }' % b, 'call_list': lambda b: 'f [ %s ]' % b,
+ 'concat_nl': lambda b: 'a ++\n(%s)' % b, 'concat_chain_r': lambda b: 'a ++\n%s' % b, 'update_chain_r': lambda b: 'a //\n%s' % b, 'impl_chain_r': lambda b: 'a ->\n%s' % b,
+ 'concat_chain': lambda b: 'a ++ %s' % b, 'binop_chain_l': lambda b: '%s + y' % b, 'concat_nl_before': lambda b: 'a\n++ %s' % b,
+ 'if_else': lambda b: 'if c then y else %s' % b, 'if_cond': lambda b: 'if %s then x else y' % b, 'let_bind': lambda b: 'let a = %s; in a' % b,
+ 'with_env': lambda b: 'with %s; x' % b, 'formal_default': lambda b: '{ a ? %s }: a' % b, 'select_default': lambda b: 'x.a or (%s)' % b,
+ 'attr_interp': lambda b: '{ ${"k"} = %s; }' % b, 'neg': lambda b: '-(%s)' % b, 'has': lambda b: '(%s) ? a' % b,
+ 'lam_nl': lambda b: 'a:\n%s' % b, 'with_nl': lambda b: 'with a;\n%s' % b, 'let_ml': lambda b: 'let\n  a = 1;\nin\n%s' % b,
 }
 LEAVES = {'atom': 'x', 'mlset': '{\n  a = 1;\n}'}
